@@ -5,7 +5,7 @@
 From Coq Require Import ZArith NArith List Bool Arith Lia.
 From FR Require Import Dec Types Bank Match Step Genesis Model Spec Checkers.
 From FR.Proofs Require Import InvDefs InvAll.
-From FR.Proofs Require Chk04 Chk05.
+From FR.Proofs Require Chk04 Chk05 Chk11.
 Import ListNotations.
 Open Scope Z_scope.
 
@@ -18,7 +18,21 @@ Proof.
   rewrite forallb_forall in H. apply forallb_forall. intros u Hu. specialize (H u Hu). exact H.
 Qed.
 
+(* c04_modify is a conjunct of the acceptance clause of c11_ok *)
+Lemma c11_ok_modify t : c11_ok t = true -> c04_modify t = true.
+Proof.
+  unfold c11_ok, c04_modify. intros H. apply andb_true_iff in H. destruct H as [H _].
+  destruct (t_op t) as [m| | | | | | |]; try reflexivity.
+  destruct (check_basic m) as [c|]; [|reflexivity].
+  destruct c; try reflexivity.
+  apply andb_true_iff in H. destruct H as [_ H].
+  destruct (oclass_eqb (t_class t) KOk); [|reflexivity].
+  repeat match goal with |- context [match ?x with Some _ => _ | None => _ end] => destruct x; try discriminate H end.
+  apply andb_true_iff in H. destruct H as [_ H]. exact H.
+Qed.
+
 Theorem c04_all_model s o : Inv s -> oracle_ok s o -> c04_all (model_trans s o) = true.
 Proof.
-  intros I Ho. unfold c04_all. rewrite (Chk04.c04_ok_model s o I Ho), (c04_delivered_model s o I). reflexivity.
+  intros I Ho. unfold c04_all. rewrite (Chk04.c04_ok_model s o I Ho), (c04_delivered_model s o I).
+  rewrite (c11_ok_modify _ (Chk11.c11_ok_model s o I)). reflexivity.
 Qed.
